@@ -30,9 +30,12 @@
      although k*67 > width (reported as a finding; not covered by this model).
    * orgWidth = 0 or orgHeight = 0 (a barcode with an empty image) makes the float
      division yield +Inf (or NaN for 0/0); the conversion of +Inf to int is
-     implementation specific in Go.  No encoder of /repo and no scaled barcode has
-     an empty image; the model's value there (Z.quot _ 0 = 0, i.e. Err) carries no
-     claim.  All theorems assume orgWidth, orgHeight >= 1.
+     implementation specific in Go (observed on amd64: a 1-D source 0 wide gives
+     an error; a 2-D source 0 wide and 1 high scaled to 3x2 gives factor
+     int(min(+Inf, 2)) = 2 and an image of fill pixels only).  No encoder of /repo
+     and no scaled barcode has an empty image; the model's value there
+     (Z.quot _ 0 = 0, i.e. Err) carries no claim and differs from the code in the
+     2-D case.  All theorems assume orgWidth, orgHeight >= 1.
    * wrap calls bc.At(x, y) with x in [0, orgWidth), y in [0, orgHeight): it
      ignores Bounds().Min.  The model keeps Bounds().Min (s_x0, s_y0) so that this
      is visible: for a source whose Min is not (0,0) the code samples the wrong
